@@ -302,6 +302,17 @@ func (m *MQ) Register(ctx context.Context, cfg *msgdispatcher.StreamConfig) (<-c
 	return r.ch, nil
 }
 
+// LastEnd returns the end position of the last pack of a vchannel's log (a checkpoint behind everything).
+func (m *MQ) LastEnd(vchannel string) *msgpb.MsgPosition {
+	m.mu.Lock()
+	defer m.mu.Unlock()
+	log := m.logs[vchannel]
+	if len(log) == 0 || len(log[len(log)-1].EndPositions) == 0 {
+		return nil
+	}
+	return proto.Clone(log[len(log)-1].EndPositions[0]).(*msgpb.MsgPosition)
+}
+
 func (m *MQ) Deregister(vchannel string) {
 	if m.DeadDeregister != nil && m.DeadDeregister() {
 		return // called under the caller's locks: a dead incarnation must not block here, and has no effect any more
